@@ -2,6 +2,8 @@
 # Re-runs every seeded change under /verif/seeded against the quick checks recorded as catching it
 # (or, for the ones recorded as not caught, against the check of their own property) and prints one
 # line per change: CAUGHT / missed / NOAPPLY. /repo is restored after every change.
+# NOT while a background run (vp run) is active: those rebuild from /repo's working tree, which this
+# script patches and restores for every change.
 # usage: tools/all_seeds.sh [PROP-filter]
 set -u
 cd /repo || exit 2
